@@ -78,6 +78,8 @@ type Sim struct {
 	DiscStyle string
 	// EarlyData: an ARQ frame the TNC delivers right after CONNECTED, before the host has finished its dial sequence
 	EarlyData []byte
+	// TrailingSpace: BUFFER and PTT reports carry a trailing blank (as some TNC builds send them)
+	TrailingSpace bool
 	// NoiseBeforeBuffer: other control messages arrive between a data frame and its first BUFFER report
 	NoiseBeforeBuffer bool
 	// per data frame behaviour, keyed by the 1-based count of "D:" frames seen (retransmissions count)
@@ -130,6 +132,9 @@ func (s *Sim) SendCmd(text string) {
 		}
 		s.Log = append(s.Log, LogItem{"buf", v})
 		s.mu.Unlock()
+	}
+	if s.TrailingSpace && (strings.HasPrefix(text, "BUFFER ") || strings.HasPrefix(text, "PTT ")) {
+		text += " "
 	}
 	payload := []byte(text + "\r")
 	b := append([]byte("c:"), payload...)
@@ -233,6 +238,9 @@ func (s *Sim) serve() {
 			no0 := s.NoBuffer0
 			s.mu.Unlock()
 			if fault {
+				if s.NoiseBeforeBuffer {
+					s.SendCmd("NEWSTATE ISS") // a state report just before the fault report
+				}
 				s.SendCmd("CRCFAULT")
 				continue
 			}
